@@ -65,6 +65,17 @@ impl Round for Decimal {
     /// # } f();}
     /// ```
     fn checked_round(self, n_frac_digits: i8) -> Option<Self> {
+        #[cfg(feature = "verif-hooks")]
+        {
+            use fpdec_core::verif;
+            if n_frac_digits >= self.n_frac_digits as i8 {
+                verif::hit(verif::ROUND_NOOP);
+            } else if n_frac_digits < self.n_frac_digits as i8 - 38 {
+                verif::hit(verif::ROUND_TINY);
+            } else if n_frac_digits < 0 {
+                verif::hit(verif::ROUND_SHIFT_BACK);
+            }
+        }
         if n_frac_digits >= self.n_frac_digits as i8 {
             Some(self)
         } else if n_frac_digits < self.n_frac_digits as i8 - 38 {
